@@ -84,6 +84,42 @@ Proof. exact runcallbacks_as_donecbs. Qed.
 Theorem C12_matches_spec : forall m g, matches m g = matches_spec m g.
 Proof. exact matches_is_spec. Qed.
 
+(* --- control flow of SoulSeekClient.execute and the hand-abstracted functions, regenerated / pinned by tr_waiter ---- *)
+(* the request is registered before command.send() starts, a failed send cancels it, the timeout spans the await
+   (the machine's Register-before-SendOk order, [ev_sendfail] and [ev_timeout] rely on exactly this) *)
+Theorem C12_execute_control_flow : EXEC_REGISTER_BEFORE_SEND = true /\ EXEC_CANCEL_ON_SEND_FAILURE = true /\
+  EXEC_TIMEOUT_AROUND_AWAIT = true.
+Proof. repeat split. Qed.
+
+(* a failed send leaves nothing behind: the future is cancelled and removed by its callback *)
+Theorem C12_send_failure_no_residue : forall es i e, nth_error (run es) i = Some e -> e_task e = TSending ->
+  exists e', nth_error (run (es ++ [SendFail i; RunCallbacks])) i = Some e' /\ e_in e' = false /\ e_out e' = Some OSendError.
+Proof.
+  intros es i e H T. pose proof (run_all_wf es i e H) as W.
+  replace (es ++ [SendFail i; RunCallbacks]) with ((es ++ [SendFail i]) ++ [RunCallbacks]) by (rewrite <- app_assoc; reflexivity).
+  rewrite !run_snoc. cbn [step fst]. rewrite nth_error_map, upd_nth, Nat.eqb_refl, H. cbn [option_map].
+  eexists; split; [reflexivity|]. revert W T. unfold wf. cases_entry e; cbv; intros; try discriminate; auto.
+Qed.
+
+(* the timeout handler of wait_for_*_message never calls set_exception on a future that is done *)
+Theorem C12_wait_timeout_handler_guarded : wait_timeout_sets_exception true = false.
+Proof. reflexivity. Qed.
+
+(* shape pins of the functions the model abstracts by hand (ExpectedResponse.__init__, _remove_response_future,
+   create_server/peer_response_future, register_response_future): any edit there breaks this theorem *)
+Theorem C12_abstracted_functions_pinned :
+  FP_init = 744080828542342228%N /\ FP_remove_response_future = 602243398368678079%N /\
+  FP_create_server_response_future = 474190804335832181%N /\ FP_create_peer_response_future = 52258645843995064%N /\
+  FP_register_response_future = 553702047422895174%N.
+Proof. repeat split. Qed.
+
+(* One connection's reader awaits Network.on_message_received (handlers, listeners, completion loop) before it reads the next
+   frame, also when a handler suspends: per connection the order of the Message events of the machine is the order of arrival.
+   (Across connections, and for waiters registered while a handler is suspended, "first" means first completion loop.) *)
+Theorem C12_reader_sequential_pinned : READER_SEQUENTIAL = true /\ FP_message_reader_loop = 778530898491582112%N /\
+  FP_perform_message_callback = 477511470021619338%N.
+Proof. repeat split. Qed.
+
 (* --- documented default (docstring of SoulSeekClient.execute: "default: 10"); regenerated by tr_retry ----- *)
 Theorem C12_default_command_timeout_documented : SlskGen.RetryGen.DEFAULT_COMMAND_TIMEOUT = 10%Z.
 Proof. reflexivity. Qed.
